@@ -1,0 +1,39 @@
+// Copyright 2026 SCION Association
+//
+// Licensed under the Apache License, Version 2.0 (the "License");
+// you may not use this file except in compliance with the License.
+// You may obtain a copy of the License at
+//
+//   http://www.apache.org/licenses/LICENSE-2.0
+//
+// Unless required by applicable law or agreed to in writing, software
+// distributed under the License is distributed on an "AS IS" BASIS,
+// WITHOUT WARRANTIES OR CONDITIONS OF ANY KIND, either express or implied.
+// See the License for the specific language governing permissions and
+// limitations under the License.
+
+//go:build verif
+
+package router
+
+import (
+	"net"
+	"unsafe"
+)
+
+// Thin exports for the external verification harness (/verif). No behaviour of its own.
+
+// VerifReloadPacket recycles p the way the packet pool does (reset with the standard headroom, buffer kept,
+// stale buffer contents included) and loads raw as received on link from src.
+func VerifReloadPacket(p *Packet, raw []byte, link Link, src *net.UDPAddr) {
+	p.reset(minHeadroom)
+	p.RawPacket = p.RawPacket[:len(raw)]
+	copy(p.RawPacket, raw)
+	p.Link = link
+	if src != nil {
+		p.RemoteAddr = unsafe.Pointer(src)
+	}
+}
+
+// VerifNumProcessors returns the configured number of fast-path processors (the demux modulus).
+func (v *VerifDP) VerifNumProcessors() int { return v.RunConfig.NumProcessors }
